@@ -29,6 +29,26 @@ def quoter_body(prog):
     return inlined_body(prog, quoter_fn(prog), stop=lambda g: g in acc or (prog.fns[g].get("impl") or {}).get("self", "").startswith(SPLIT_TY))
 
 
+def quoter_outputs(prog):
+    """Characters the quoter can put into a wrapping part: character constants it pushes, or that a mapping closure of it yields."""
+    q = quoter_fn(prog)
+    qb = quoter_body(prog)
+    out = set()
+    for (bb, t) in qb.calls():
+        if callee_name(t).endswith("String::push"):
+            v = strip_refs(qb.expr_operand(t["args"][1]))
+            if is_const(v, "char"):
+                out.add(const_val(v))
+    for ck in prog.closures_of(q) + [c for g in (qb.fn.get("inlined") or []) for c in prog.closures_of(g)]:
+        cb = prog.body(ck)
+        if cb.locals[0]["ty"] != "char":
+            continue
+        for (i, j, st) in cb.stmts():
+            if st["k"] == "assign" and st["rv"]["k"] == "use" and st["rv"]["op"]["k"] == "const" and st["rv"]["op"].get("char") is not None:
+                out.add(st["rv"]["op"]["char"])
+    return out
+
+
 def split_fn(prog):
     hits = [k for k, f in prog.fns.items() if (f.get("impl") or {}).get("self", "").startswith(SPLIT_TY)
             and f.get("inputs") == ["&str", "bool"]]
@@ -163,6 +183,45 @@ def run(ctx):
                         if dest_local in _moved_locals(qb, st["rv"]):
                             field = fname
         maps[s] = (it_src, field, table, okshape)
+    # the same per-character map written as  part.extend(source.chars().map(|ch| …))
+    from engine.analyses import PredEval
+    pe_ = PredEval(prog)
+    for (bb_, t_) in qb.calls():
+        n_ = callee_name(t_)
+        if not (n_.endswith("::extend") and "String" in t_["args"][0]["place"]["ty"]):
+            continue
+        it_ = strip_refs(qb.expr_operand(t_["args"][1]))
+        mp_ = it_ if (it_.k == "call" and it_.a[0].endswith("Iterator::map")) else None
+        if mp_ is None:
+            continue
+        clo_ = strip_refs(mp_.a[1][1])
+        if not (clo_.k == "agg" and str(clo_.a[0]).startswith("closure:")):
+            continue
+        ck_ = clo_.a[0][8:]
+        table = {}
+        okshape = True
+        same = True
+        for cp in [0x27, 0x22] + list(range(0x20, 0x7f)) + [0x0995, 0x09BE, 0x0964, 0x2018, 0x201C]:
+            r_ = pe_.call(ck_, [("env",), cp])
+            if r_ is None or isinstance(r_, bool):
+                okshape = False
+                break
+            if cp in (0x27, 0x22):
+                table[cp] = chr(r_) if r_ != cp else chr(cp)
+            elif r_ != cp:
+                same = False
+        table["otherwise"] = "same" if same else "changed"
+        # drop identity rows so that the comparison below sees only real replacements
+        table = {k: v for k, v in table.items() if k == "otherwise" or ord(v) != k}
+        dest_local = _ref_target_local(qb, t_["args"][0])
+        field = None
+        if dest_local is not None:
+            for fname, blks in wblocks.items():
+                for (i, j, st) in qb.stmts():
+                    if i in blks and st["k"] == "assign" and st["place"]["l"] == 1 and st["place"]["p"][0].get("n") == fname:
+                        if dest_local in _moved_locals(qb, st["rv"]):
+                            field = fname
+        maps[bb_] = (_chars_source(qb, mp_.a[1][0], acc), field, table, okshape)
     seen_fields = set()
     for s, (it_src, field, table, okshape) in sorted(maps.items()):
         key = "map:%s" % (field or "bb%d" % s)
@@ -323,16 +382,9 @@ def run(ctx):
     # ---------------- R4 the curled quotes stay punctuation for the splitter (same preselection with the option on and off)
     r4 = chk.rule("C17.R4", "the quotes the quoter produces are punctuation for the splitter",
                   "same preselection with the option on and off (a committed curled candidate must be stripped like a straight one)")
-    sets = common.str_literal_sets(prog, sp)
-    for ck in prog.closures_of(sp):
-        sets += common.str_literal_sets(prog, ck)
+    sets = common.splitter_sets(prog, sp)
     meta = set("".join(s_ for s_, bb in sets))
-    qout = set()
-    for (bb, t) in qb.calls():
-        if callee_name(t).endswith("String::push"):
-            v = strip_refs(qb.expr_operand(t["args"][1]))
-            if is_const(v, "char"):
-                qout.add(const_val(v))
+    qout = quoter_outputs(prog)
     for ch in sorted(qout):
         if ch in meta:
             r4.ok("U+%04X" % ord(ch), "in the splitter's punctuation set")
